@@ -44,6 +44,9 @@ def draw_cfg(st):
     cfg["w_plain_gen"] = st.choose(3, "plaingen4")
     cfg["extractors"] = []
     cfg["join_after_scope"] = True
+    cfg["foreign_finish"] = bool(st.choose(2, "foreign_finish"))
+    # a generator suspended inside an action's block, stepped in one contextvars Context and closed from here
+    cfg["w_destop"] = st.choose(2, "xctx_close")
     cfg["act_styles"] = [i for i in range(len(P.ACT_STYLES)) if i in (0, 1, 2, 3, 8) or st.choose(2, "style4")]
     w = list(cfg["w_ops"])
     w[0] = 3
@@ -52,11 +55,62 @@ def draw_cfg(st):
     return cfg
 
 
+def op_xctx_close(interp, op, env):
+    """A plain generator suspended inside `with action:` / `with action.context():` was stepped in ANOTHER
+    Context (a task, a thread pool, copy_context().run) and is closed from this one.  Unsupported use as far
+    as the generator's own block goes (the close may fail with ValueError, its action may stay unfinished --
+    both tolerated; it logs to a logger of its own, outside the checked forest), but the closer's scope is
+    covered by the property: inside its own block current_action() stays its action."""
+    import contextvars
+    rc = interp.rc
+    e = rc.eliot
+    ml = e.MemoryLogger()
+    variant = sum(len(str(k)) for k in op) + len(op.get("add", ())) + int(op.get("remove", 0))
+    use_context = variant % 2 == 0
+    fresh = (variant // 2) % 2 == 0
+
+    def g():
+        a = e.start_task(ml, action_type="x:suspended")
+        if use_context:
+            with a.context():
+                yield 1
+            a.finish()
+        else:
+            with a:
+                yield 1
+
+    gen = g()
+    rc.live_gens.append(gen)
+    if fresh:
+        ctx = contextvars.Context()
+        ctx.run(next, gen)
+    else:
+        other = e.start_task(ml, action_type="x:elsewhere")
+
+        def elsewhere():
+            other.__enter__()
+            next(gen)
+        ctx = contextvars.copy_context()
+        ctx.run(elsewhere)
+    interp.check_current(env, "foreign_step")
+    try:
+        gen.close()
+    except (ValueError, RuntimeError):
+        rc.probe("foreign_close_refused")
+    rc.probe("generator_closed_from_another_context")
+    interp.check_current(env, "foreign_close")
+
+
+def setup(rc, interp):
+    c03.setup(rc, interp)
+    rc.custom_ops["destop"] = op_xctx_close
+
+
 def run_one(seed, dec):
     cfg = draw_cfg(dec.stream("cfg"))
     prog = P.generate(dec.stream("prog"), cfg)
     rc = RunCtx(ID, seed, dec, cfg)
-    run_program(rc, prog, c03.setup)
+    run_program(rc, prog, setup)
     if rc.violation is None:
         try:
             msgs = [r.msg for r in rc.tap.records]
